@@ -461,6 +461,11 @@ namespace pbt
           while (is >> e)
             opt.excl.insert(e);
         }
+        else if (line.rfind("text|", 0) == 0)
+        { // a literal input text for harnesses that accept one (program-level replays that must survive generator changes)
+          opt.kv["text"] += line.substr(line.size() > 5 && line[5] == ' ' ? 6 : 5) + "\n";
+          got = true;
+        }
         else if (line.rfind("opt:", 0) == 0)
         {
           std::istringstream is(line.substr(4));
